@@ -9,7 +9,8 @@
   What is proved (model = Model/FSArray.lean + Model/SpliceOp.lean, tied to the code per run; `md` is the parser
   model's CPython digit-limit parameter, irrelevant here):
     C04_init               FSArray(n, w, *args): n blank rows, WF
-    C04_assign_partial     a block that fits (right row count, no row longer than the region, str rows ESC-free):
+    C04_assign_partial     a block that fits (right row count, no row longer than the region or reaching past the
+                           width - the region itself may extend beyond the right edge -, str rows ESC-free):
                            succeeds, the new grid is `C04_paint`, height = max old r1, no row wider than the array
     C04_width_invariant    EVERY a[r, c] = value (any subscripts, any value, any outcome) keeps all rows <= width
     C04_error_unchanged    EVERY a[r, c] = value that raises leaves every cell as it was
@@ -26,7 +27,9 @@
   containing an SGR sequence is parsed and measured raw; `C04_D27_fsarray` for `fsarray`).
 
   Hypotheses (the statement's domain): row subscripts `r0:r1` with explicit `0 <= r0 <= r1`, or ints; columns
-  `0 <= c0 <= c1 <= width` (the text is silent beyond the width); for the rejection clause the region is NON-EMPTY
+  `0 <= c0 <= c1`, `c0 <= width` - the region may reach past the right edge: `C04_assign_partial` asks `c0 + len <= width`
+  of every row, `C04_reject_partial` rejects a row with `c0 + len > width`; `C04_full_statement`, `C04_history` and
+  the reads keep `c1 <= width` (a region starting beyond the right edge is outside: the text is silent there); for the rejection clause the region is NON-EMPTY
   (`r0 < r1`, `c0 < c1`): a zero-area region has no cells a block could be composited into, the statement requires
   no error there (the code returns early, as numpy-style semantics do) - only "no cell changes", which
   `C04_empty_region_noop` proves; a `str` value only for regions of at most one column (the code rejects it
@@ -72,7 +75,7 @@ theorem C04_error_unchanged (md : Nat) (a : FSArr) (r c : Index) (value : Block)
     padded with blanks and every other cell is as it was (`C04_paint`); the array has grown to `max height r1`
     rows; no row is wider than the array; the width is unchanged. -/
 theorem C04_assign_partial (md : Nat) (a : FSArr) (r0 r1 c0 c1 : Nat) (value : Block)
-    (hw : WF a) (hr : r0 ≤ r1) (hc : c0 ≤ c1) (hW : c1 ≤ a.numColumns)
+    (hw : WF a) (hr : r0 ≤ r1) (hc : c0 ≤ c1) (hW : ∀ it ∈ value.items, c0 + it.rawLen ≤ a.numColumns)
     (hrows : value.items.length = r1 - r0) (hfit : ∀ it ∈ value.items, it.rawLen ≤ c1 - c0)
     (hstr : ¬ (value.isStr = true ∧ c1 - c0 > 1)) (hesc : ∀ it ∈ value.items, it.EscFree) :
     ∃ a', a.setRegion md (.slice (some (r0 : Int)) (some (r1 : Int))) (.slice (some (c0 : Int)) (some (c1 : Int))) value
@@ -112,8 +115,8 @@ theorem C04_assign_partial (md : Nat) (a : FSArr) (r0 r1 c0 c1 : Nat) (value : B
     rw [if_neg h2, if_neg h3]
     have hlen1 : r1 ≤ (a.extended r1).rows.length := by rw [extended_length]; omega
     have hsl := listSlice_length (a.extended r1).rows r0 r1 hr hlen1
-    obtain ⟨new, hnew, hnl, hcell⟩ := setRows_ok md c0 c1 a.numColumns hc hW
-      (listSlice (a.extended r1).rows (r0, r1)) value.items
+    obtain ⟨new, hnew, hnl, hcell⟩ := setRows_ok md c0 c1 a.numColumns hc
+      (listSlice (a.extended r1).rows (r0, r1)) value.items hW
       (fun f hf => WF_extended a r1 hw f (by
         simp only [listSlice] at hf
         exact List.mem_of_mem_take (List.mem_of_mem_drop hf)))
@@ -285,6 +288,19 @@ theorem C04_empty_region_noop (md : Nat) (a : FSArr) (r0 r1 c0 c1 : Nat) (value 
   have he : (slicesize (c0, c1) = 0 ∨ slicesize (r0, r1) = 0) := by simp only [slicesize]; omega
   rw [if_pos he]
   exact ⟨rfl, fun r c => grid_extended a r1 r c⟩
+
+/-- A region reaching past the right edge (`c1 > width`): a row that stays inside is composited, a row that would
+    reach past the width is rejected; a zero-width array takes only empty rows. -/
+example :
+    ((FSArr.init 1 4 {}).setRegion 4300 (.slice (some 0) (some 1)) (.slice (some 2) (some 8)) ⟨false, [.str ['X', 'Y']]⟩).2 = .ok () ∧
+    ((FSArr.init 1 4 {}).setRegion 4300 (.slice (some 0) (some 1)) (.slice (some 2) (some 8)) ⟨false, [.str ['X', 'Y']]⟩).1.rows.map cells
+      = [[(' ', {}), (' ', {}), ('X', {}), ('Y', {})]] ∧
+    ((FSArr.init 1 4 {}).setRegion 4300 (.slice (some 0) (some 1)) (.slice (some 4) (some 6)) ⟨false, [.str ['x', 'y']]⟩).2
+      = .error .valueError ∧
+    ((FSArr.init 1 0 {}).setRegion 4300 (.slice (some 0) (some 1)) (.slice (some 0) (some 3)) ⟨false, [.str ['a', 'b', 'c']]⟩).2
+      = .error .valueError ∧
+    ((FSArr.init 1 0 {}).setRegion 4300 (.slice (some 0) (some 1)) (.slice (some 0) (some 3)) ⟨false, [.str []]⟩).2 = .ok () := by
+  decide +kernel
 
 /-- Non-vacuity of `C04_assign_partial` / `C04_reject_partial`: a 2x3 array whose first row is 'abc', then
     `a[0:2, 1:2] = [bold 'X', '']`: both rows fit; and `a[0:1, 0:1] = ['xz']` on that array is rejected. -/
@@ -518,7 +534,8 @@ theorem C04_assign_int_partial (md : Nat) (a : FSArr) (r c : Nat) (value : Block
       (∀ r' c', grid a' r' c' = C04_paint (grid a) r (r + 1) c (c + 1) [it.cells] r' c') ∧
       a'.rows.length = max a.rows.length (r + 1) ∧ WF a' ∧ a'.numColumns = a.numColumns := by
   rw [C04_int_subscript md a r c value hr hc]
-  have := C04_assign_partial md a r (r + 1) c (c + 1) value hw (by omega) (by omega) (by omega)
+  have := C04_assign_partial md a r (r + 1) c (c + 1) value hw (by omega) (by omega)
+    (by rw [hitems]; intro x hx; simp at hx; subst hx; omega)
     (by rw [hitems]; simp) (by rw [hitems]; simpa using hfit) (by omega) (by rw [hitems]; simpa using hesc)
   rw [hitems] at this
   simpa using this
@@ -614,7 +631,8 @@ theorem C04_history (md : Nat) (a : FSArr) (hist : List C04_Asg) (hw : WF a)
       · rw [if_pos hf]
         rcases hcase with ⟨_, hesc⟩ | hempty | hrej
         · simp only [C04_Asg.fits, Bool.and_eq_true, decide_eq_true_eq, List.all_eq_true] at hf
-          obtain ⟨a', h1, h2, _⟩ := C04_assign_partial md a s.r0 s.r1 s.c0 s.c1 s.value hw hvs.1 hvs.2.1 hvs.2.2.1
+          obtain ⟨a', h1, h2, _⟩ := C04_assign_partial md a s.r0 s.r1 s.c0 s.c1 s.value hw hvs.1 hvs.2.1
+            (fun it hit => by have := hf.2 it hit; have := hvs.2.2.1; have := hvs.2.1; omega)
             hf.1 (fun it hit => hf.2 it hit) hvs.2.2.2 hesc
           simp only [C04_call, h1, h2]
         · -- a region without cells: nothing is painted, nothing changes
